@@ -81,7 +81,8 @@ def replay(wd, mode, recs):
 def run(tier: str) -> int:
     out = Outcome(PID, tier)
     wd = workdir(PID)
-    mcs = [mc(wd, f)[0] for f in (("T3", "T4", "G3") if tier == "quick" else ("T3", "T4", "G3", "G4"))]
+    # (G4 as a start family has 43 million reachable states: it is used as a generator only)
+    mcs = [mc(wd, f)[0] for f in (("T3", "T4", "G3") if tier == "quick" else ("T3", "T4", "T5", "G3"))]
     gens = {f: gen(wd, f)[0] for f in ("T3", "T4", "T5", "G3", "G4")}
     gens["T5r"] = gen(wd, "T5r", rnd_seed=160 + seed(), rndk=10 if tier == "quick" else 40)[0]
     if tier == "thorough":
